@@ -141,24 +141,35 @@ pub fn check_c03(ctx: &Ctx) -> i32 {
     let t2 = par_items(&aitems, ctx.seed, |idx, (ac, lead, steps), t| {
         let cfg = Cfg::basic(VCodec::H264, Some(*ac), idx % 2 == 1);
         let st = audio_steps();
-        let mut ops = vec![];
-        for i in 0..2 {
-            let (d, _) = video_frame(VCodec::H264, i == 0, i == 0, i + 1, 4);
-            ops.push(Op::WV { pts: T(i as f64 / 30.0), data: Bytes::new(d), key: i == 0 });
-        }
-        let mut at = *lead;
-        for i in 0..=steps.len() {
-            if i > 0 {
-                at += st[steps[i - 1]];
+        // rej_at = 0: the plain history; rej_at = j: before the j-th accepted frame an audio call
+        // with an unusable payload is made at a time between its neighbours (it is refused, and
+        // the deltas of the accepted frames must be what they are without it)
+        for rej_at in 0..=steps.len() {
+            let mut ops = vec![];
+            for i in 0..2 {
+                let (d, _) = video_frame(VCodec::H264, i == 0, i == 0, i + 1, 4);
+                ops.push(Op::WV { pts: T(i as f64 / 30.0), data: Bytes::new(d), key: i == 0 });
             }
-            if !tick_is_robust(at) {
-                t.count("skipped_tie_sensitive_timestamps", 1);
-                return;
+            let mut at = *lead;
+            for i in 0..=steps.len() {
+                let prev = at;
+                if i > 0 {
+                    at += st[steps[i - 1]];
+                }
+                if !tick_is_robust(at) {
+                    t.count("skipped_tie_sensitive_timestamps", 1);
+                    return;
+                }
+                if i > 0 && rej_at == i {
+                    let mid = (prev + at) / 2.0;
+                    let bad = if ac.is_aac() { vec![0x03] } else { vec![] };
+                    ops.push(Op::WA { pts: T(if tick_is_robust(mid) { mid } else { at }), data: Bytes::new(bad) });
+                }
+                let (d, _) = audio_frame(*ac, i as u32, 5 + i);
+                ops.push(Op::WA { pts: T(at), data: Bytes::new(d) });
             }
-            let (d, _) = audio_frame(*ac, i as u32, 5 + i);
-            ops.push(Op::WA { pts: T(at), data: Bytes::new(d) });
+            judge_history(FileProp::C03, &cfg, &ops, (1_000_000 + idx as u64, rej_at as u64), t);
         }
-        judge_history(FileProp::C03, &cfg, &ops, (1_000_000 + idx as u64, 0), t);
     });
     tally.merge(t2);
 
@@ -291,7 +302,7 @@ pub fn check_c03(ctx: &Ctx) -> i32 {
         Meta {
             level: "model_checking",
             rule: format!(
-                "every video DTS sequence of <= {vmax} frames over the step alphabet {{1/30, 1001/30000, 1001/24000, 1 tick, 0.4 tick, 7.3 s, 2^31 ticks, 2^31-1800 ticks, 2^31+1800 ticks}} from starts {{0, 0.5, 36000 s}}, via write_video and via write_video_with_dts with every composition-offset vector over {{0, -2/30 s, +1/30 s, +1001/24000 s (off the tick grid)}} plus an overflowing offset at each single position, on H.264 and VP9 ({n_video_items} sequence items); every audio PTS sequence of <= {amax} frames over steps {{0, 1024/48000, 1024/44100, 0.02}} x start lead {{0, 0.01}} x {{AAC, Opus}} ({n_audio_items} items); rejected writes are kept in the history and the oracle is applied to the accepted subsequence; far from zero: four-frame histories from ticks 2^40+1, 2^52+1, 2^52+2, 2^53-41 with delta patterns (3,4,5), (3000,3001,2999), (1,1,1); tick-level jitter: every step sequence of 2..{jmax} steps over {{1, 2, 3, 5}} ticks x scale {{1, 600}} for video and for audio ({n_jitter} items); plus two long single traces ({long_n} video frames at 29.97/23.976 fps with {} AAC frames at 44.1 kHz) for the no-drift clause. Oracle: stts deltas = differences of exactly rounded absolute timestamps, last-sample rule, ctts presence/values, mdhd duration = sum, no drift at any sample. Distinct by (result vector, output bytes).",
+                "every video DTS sequence of <= {vmax} frames over the step alphabet {{1/30, 1001/30000, 1001/24000, 1 tick, 0.4 tick, 7.3 s, 2^31 ticks, 2^31-1800 ticks, 2^31+1800 ticks}} from starts {{0, 0.5, 36000 s}}, via write_video and via write_video_with_dts with every composition-offset vector over {{0, -2/30 s, +1/30 s, +1001/24000 s (off the tick grid)}} plus an overflowing offset at each single position, on H.264 and VP9 ({n_video_items} sequence items); every audio PTS sequence of <= {amax} frames over steps {{0, 1024/48000, 1024/44100, 0.02}} x start lead {{0, 0.01}} x {{AAC, Opus}} ({n_audio_items} items), each also with a refused audio call (unusable payload) between any two accepted frames; rejected writes are kept in the history and the oracle is applied to the accepted subsequence; far from zero: four-frame histories from ticks 2^40+1, 2^52+1, 2^52+2, 2^53-41 with delta patterns (3,4,5), (3000,3001,2999), (1,1,1); tick-level jitter: every step sequence of 2..{jmax} steps over {{1, 2, 3, 5}} ticks x scale {{1, 600}} for video and for audio ({n_jitter} items); plus two long single traces ({long_n} video frames at 29.97/23.976 fps with {} AAC frames at 44.1 kHz) for the no-drift clause. Oracle: stts deltas = differences of exactly rounded absolute timestamps, last-sample rule, ctts presence/values, mdhd duration = sum, no drift at any sample. Distinct by (result vector, output bytes).",
                 2 * long_n
             ),
             bound: format!("video <= {vmax} frames, audio <= {amax} frames; long traces are single deterministic executions"),
